@@ -41,6 +41,7 @@ type resumeMsg struct {
 
 type arrival struct {
 	kind   msgKind
+	gptr   uintptr
 	goid   uint64
 	parent uint64
 	point  string
@@ -116,7 +117,8 @@ type Kernel struct {
 	rowCtr    atomic.Uint64
 
 	// controller-private
-	gs      map[uint64]*G
+	gs      map[uintptr]*G // by runtime descriptor address
+	byGoid  map[uint64]*G  // by goroutine id, for goroutines that reported one
 	glist   []*G
 	parked  []*G
 	procs   []*Proc
@@ -179,27 +181,35 @@ func curGoid() uint64 {
 	return id
 }
 
-func parentGoid() uint64 {
+// goidAndParent parses the goroutine id and, when the whole stack fits, the id
+// of the creating goroutine from a stack dump. Only used at start points.
+func goidAndParent() (uint64, uint64) {
 	buf := make([]byte, 8192)
 	n := runtime.Stack(buf, false)
 	s := string(buf[:n])
+	num := func(s string) uint64 {
+		var id uint64
+		for _, c := range s {
+			if c < '0' || c > '9' {
+				break
+			}
+			id = id*10 + uint64(c-'0')
+		}
+		return id
+	}
+	goid := num(s[len("goroutine "):])
 	i := strings.LastIndex(s, " in goroutine ")
 	if i < 0 {
-		return 0
+		return goid, 0
 	}
-	s = s[i+len(" in goroutine "):]
-	var id uint64
-	for _, c := range s {
-		if c < '0' || c > '9' {
-			break
-		}
-		id = id*10 + uint64(c-'0')
-	}
-	return id
+	return goid, num(s[i+len(" in goroutine "):])
 }
 
 func isRowPoint(p string) bool {
-	return strings.HasSuffix(p, ".row") || p == "load.cons.recv" || p == "load.prod.sent"
+	// load.cons.recv is never thinned: it follows a channel receive, i.e. a
+	// wake-up caused by another goroutine, and must park so that two goroutines
+	// never do work at the same time
+	return strings.HasSuffix(p, ".row") || p == "load.prod.sent"
 }
 
 func (k *Kernel) park(kind msgKind, point string, idx int, arg string) resumeMsg {
@@ -207,9 +217,9 @@ func (k *Kernel) park(kind msgKind, point string, idx int, arg string) resumeMsg
 		return resumeMsg{}
 	}
 	raceDisable()
-	a := arrival{kind: kind, goid: curGoid(), point: point, idx: idx, arg: arg, resume: make(chan resumeMsg)}
+	a := arrival{kind: kind, gptr: getg(), point: point, idx: idx, arg: arg, resume: make(chan resumeMsg)}
 	if strings.HasSuffix(point, ".start") {
-		a.parent = parentGoid()
+		a.goid, a.parent = goidAndParent()
 	}
 	k.inbox <- a
 	r := <-a.resume
@@ -284,7 +294,8 @@ func NewKernel(sc *Scenario, dir string, dec *Decider) *Kernel {
 	k := &Kernel{
 		sc:    sc,
 		Dir:   dir,
-		gs:    map[uint64]*G{},
+		gs:    map[uintptr]*G{},
+		byGoid: map[uint64]*G{},
 		dec:   dec,
 	}
 	k.rowStride = uint64(sc.Knobs.RowStride)
@@ -335,6 +346,11 @@ func (k *Kernel) sleepers() int {
 	return n
 }
 
+func isWorkerPoint(p string) bool {
+	return strings.HasPrefix(p, "gm.run.") || strings.HasPrefix(p, "eval.seq.") || strings.HasPrefix(p, "group.") ||
+		strings.HasPrefix(p, "join.") || strings.HasPrefix(p, "analyze.")
+}
+
 func isSleepPoint(p string) bool {
 	return p == "cf.retry.sleep" || p == "h.open.read" || p == "h.open.update"
 }
@@ -373,7 +389,7 @@ func (k *Kernel) drain() bool {
 	items := make([]item, len(as))
 	for i := range as {
 		a := &as[i]
-		g := k.gs[a.goid]
+		g := k.lookup(a)
 		it := item{a: a, g: g}
 		if g != nil {
 			it.key = fmt.Sprintf("0:%09d:%d", g.id, a.kind)
@@ -381,7 +397,7 @@ func (k *Kernel) drain() bool {
 			pid := -1
 			if a.kind == mAdopt {
 				pid = a.proc
-			} else if pg := k.gs[a.parent]; pg != nil {
+			} else if pg := k.byGoid[a.parent]; pg != nil {
 				pid = pg.proc.idx
 			}
 			it.key = fmt.Sprintf("1:%04d:%s:%09d", pid+1, a.point, a.idx)
@@ -395,8 +411,20 @@ func (k *Kernel) drain() bool {
 	return true
 }
 
+// lookup finds the simulated goroutine an arrival comes from. Runtime
+// descriptors are recycled, so at start points (where the real goroutine id is
+// reported) a descriptor that now carries another id denotes a new goroutine.
+func (k *Kernel) lookup(a *arrival) *G {
+	g := k.gs[a.gptr]
+	if g != nil && a.goid != 0 && g.goid != 0 && g.goid != a.goid {
+		delete(k.gs, a.gptr)
+		return nil
+	}
+	return g
+}
+
 func (k *Kernel) accept(a *arrival) {
-	g := k.gs[a.goid]
+	g := k.lookup(a)
 	if a.kind == mDone {
 		p := k.procs[a.proc]
 		p.done = true
@@ -418,7 +446,7 @@ func (k *Kernel) accept(a *arrival) {
 		if a.kind == mAdopt {
 			p = k.procs[a.proc]
 			p.cancel = a.cancel
-		} else if pg := k.gs[a.parent]; pg != nil {
+		} else if pg := k.byGoid[a.parent]; pg != nil {
 			p = pg.proc
 		} else if k.lastRun != nil {
 			p = k.lastRun.proc
@@ -429,7 +457,10 @@ func (k *Kernel) accept(a *arrival) {
 		if k.strat != nil {
 			g.prio = k.strat.newPrio(len(k.glist))
 		}
-		k.gs[a.goid] = g
+		k.gs[a.gptr] = g
+		if a.goid != 0 {
+			k.byGoid[a.goid] = g
+		}
 		k.glist = append(k.glist, g)
 		k.Stats.Goroutines++
 	}
@@ -441,6 +472,17 @@ func (k *Kernel) accept(a *arrival) {
 	g.proc.yields++
 	k.parked = append(k.parked, g)
 	sort.Slice(k.parked, func(i, j int) bool { return k.parked[i].id < k.parked[j].id })
+	if isWorkerPoint(a.point) {
+		n := 0
+		for _, pg := range k.parked {
+			if pg.cur != nil && isWorkerPoint(pg.cur.point) && pg.proc == g.proc {
+				n++
+			}
+		}
+		if n > k.Stats.MaxWorkers {
+			k.Stats.MaxWorkers = n
+		}
+	}
 	if a.kind == mEvent {
 		k.logf("ev g%d p%d %s %s t=%v", g.id, g.proc.idx, a.point, k.Norm(a.arg), k.Now())
 	} else {
@@ -561,6 +603,9 @@ func (k *Kernel) Run() {
 	vhook.Install(k)
 	defer vhook.Install(nil)
 
+	if k.sc.Knobs.FreeRun {
+		k.free.Store(true)
+	}
 	k.strat = NewStrategy(k.sc.Sched, len(k.sc.Procs))
 	for i := range k.sc.Procs {
 		p := &Proc{idx: i, spec: &k.sc.Procs[i]}
